@@ -49,9 +49,23 @@ class TagEnum(_enum.Enum):
     EAST = 3
 
 
+class OpaqueTag:
+    """a legal tag: hashable, comparable, picklable -- but printed with its
+    address (no __repr__)"""
+
+    def __init__(self, value):
+        self.value = value
+
+    def __eq__(self, other):
+        return isinstance(other, OpaqueTag) and self.value == other.value
+
+    def __hash__(self):
+        return hash(("OpaqueTag", self.value))
+
+
 _TAG_CLASSES = [TagA, TagB, TagC]
 TAG_KINDS = ("int", "str", "tuple", "cls", "clstuple", "fs", "bytes", "nested",
-             "enum")
+             "enum", "fsbare", "obj")
 
 
 def mk_tag(tag):
@@ -75,6 +89,12 @@ def mk_tag(tag):
         return (int(k), ("halo", (int(k) % 3, "x")), None)
     if kind == "enum":
         return (list(TagEnum)[k % 3], k // 3)
+    if kind == "fsbare":
+        # a bare frozenset: its repr follows the hash seed
+        names = ["flux", "grad", "visc", "left", "right", "halo", "bdry"]
+        return frozenset({names[k % 7], names[(k // 7 + 3) % 7], f"q{k}"})
+    if kind == "obj":
+        return OpaqueTag(int(k))
     if kind == "RETAG":
         return ("RETAG", int(k))
     raise ValueError(kind)
